@@ -286,12 +286,23 @@ func stripChainReturnValue(top, parent *valueProperty, this_ propertySet, key in
 	}
 	if this.key == key {
 		// caller ensures that this != top/parent
-		parent.chain = this.chain
-		this.chain = nil
-		return this.val, top
+		// Links may be shared with by-value copies of the owner (cells are
+		// copied around freely), so never edit them: rebuild top..parent
+		// instead, hung onto what follows the removed link.
+		return this.val, copyChainUntil(top, this, this.chain)
 	}
 	if this.chain == nil || this.chain == noProperty {
 		return nil, top
 	}
 	return stripChainReturnValue(top, this, this.chain, key)
+}
+
+// copyChainUntil returns a copy of the links from `from` up to but excluding
+// `stop`, with the copy of the last of them chained onto `tail`.
+func copyChainUntil(from, stop *valueProperty, tail propertySet) propertySet {
+	if from == stop {
+		return tail
+	}
+	next, _ := from.chain.(*valueProperty)
+	return &valueProperty{copyChainUntil(next, stop, tail), from.key, from.val}
 }
